@@ -21,7 +21,31 @@ def run(ctx):
     mc = [("MC_Connection_calls.cfg", {})] + ([] if ctx.quick else [("MC_Connection_calls2.cfg", {})])
     conn_common.dedicated(ctx, "c11", mc, build)
     conn_common.run_general_property(ctx)
+    # the request-response calls of the API above the connection (Bluetooth operations): each ends exactly at the
+    # time-out IT was given and leaves no handler / timer behind - timer heap and handler count of every row
+    from vf import sessionsim
+    from vf.props import sess_common
+    import random
+
+    cross, special = sessionsim.c16_systematic()
+    rs = random.Random(ctx.seed + 11)
+    cases = [(sess_common.CFGS[i % 2], s) for i, s in enumerate(special + rs.sample(cross, 300 if ctx.quick else 3000))]
+    res = sess_common.run_family(ctx, "ble_calls", cases)
+    ctx.evaluations += res["n"]
+    ctx.distinct |= {("ble_calls", i) for i in range(res["n"])}
+    ctx.extra["reached_ble_calls"] = res["reach"]
+    for f in res["findings"]:
+        if set(f["fields"]) & {"tm", "skipped_timer", "nh", "hang"}:
+            ctx.violation(f"Session/ble_calls/{f['cause']}/{'+'.join(f['fields'])}", {"kind": "session-trace", "family": "ble_calls", **f})
+        else:
+            ctx.notes.append(f"operation-table mismatch (C16) seen in family ble_calls: {f['fields']}")
+    ctx.notes[:] = sorted(set(ctx.notes))[:20]
 
 
 def replay(ctx, case):
+    if case.get("kind") == "session-trace":
+        from vf.props import sess_common
+
+        sess_common.replay(ctx, case)
+        return
     conn_common.replay_case(ctx, case)
